@@ -821,15 +821,17 @@ func NewSupplyQueriesMonitor(e *Env) *Monitor {
 		// TotalSupply listing with every page size, key- and offset-based; each denom exactly once
 		n := len(bankSupply)
 		for limit := 1; limit <= n+2; limit++ {
-			for _, mode := range []string{"key", "offset"} {
+			for _, mode := range []string{"key", "offset", "key-reverse", "offset-reverse"} {
+				rev := strings.HasSuffix(mode, "-reverse")
+				byKey := strings.HasPrefix(mode, "key")
 				got := map[string]math.Int{}
 				dup := ""
 				var key []byte
 				off := uint64(0)
 				pages := 0
 				for {
-					pr := &query.PageRequest{Limit: uint64(limit), CountTotal: mode == "offset"}
-					if mode == "key" {
+					pr := &query.PageRequest{Limit: uint64(limit), CountTotal: !byKey, Reverse: rev}
+					if byKey {
 						pr.Key = key
 					} else {
 						pr.Offset = off
@@ -854,7 +856,7 @@ func NewSupplyQueriesMonitor(e *Env) *Monitor {
 					}
 					pages++
 					off += uint64(limit)
-					if mode == "key" {
+					if byKey {
 						if r.Pagination == nil || len(r.Pagination.NextKey) == 0 {
 							break
 						}
@@ -891,6 +893,38 @@ func NewSupplyQueriesMonitor(e *Env) *Monitor {
 				}
 				if len(got) != len(bankSupply) {
 					viol("total-supply-listing", mode, "TotalSupply listing has %d denoms, bank has %d (%v)", len(got), len(bankSupply), ds)
+				}
+			}
+		}
+		// a client may resume from ANY denom as key, in either direction: every denom a page lists must
+		// carry the right figure
+		for si, start := range bankSupply {
+			for _, rev := range []bool{false, true} {
+				if rev && si == len(bankSupply)-1 {
+					// upstream: query.Paginate's reverse iterator setup calls Key() on an exhausted iterator
+					// when the resume key is the greatest key of the store (SDK v0.47.13 getIterator) and
+					// panics inside the SDK; not reachable through NextKey walks, not mainchain code
+					e.C.Count("reverse_from_greatest_key_skipped_upstream_panic", 1)
+					continue
+				}
+				for _, limit := range []uint64{1, 2, uint64(n) + 1} {
+					r, err := ek.TotalSupply(g, &enttypes.QueryTotalSupplyRequest{Pagination: &query.PageRequest{Key: []byte(start.Denom), Limit: limit, Reverse: rev}})
+					e.C.Count("supply_queries", 1)
+					if err != nil {
+						viol("supply-query-error", "TotalSupply", "key %s limit %d reverse %v: %v", start.Denom, limit, rev, err)
+						continue
+					}
+					e.C.Count("direct_key_pages", 1)
+					for _, c := range r.Supply {
+						want := bankSupply.AmountOf(c.Denom)
+						cls := "other-denom"
+						if c.Denom == native {
+							want, cls = wantNative, "native"
+						}
+						if !c.Amount.Equal(want) {
+							viol("total-supply-amount", cls, "TotalSupply page from key %s (limit %d, reverse %v) lists %s%s, expected %s", start.Denom, limit, rev, c.Amount, c.Denom, want)
+						}
+					}
 				}
 			}
 		}
